@@ -412,6 +412,18 @@ pub fn plan(tier: Tier) -> Plan {
             }
         }));
     }
+    for part in 0..8usize {
+        let auts = auts.clone();
+        p.units.push(unit("label-family-v1-v2-v3", format!("labels part {}", part), move |st, rep| {
+            for (i, (_, kvs)) in label_family().into_iter().enumerate() {
+                if i % 8 != part {
+                    continue;
+                }
+                st.nontrivial += 9 * (kvs.len() >= 2) as u64;
+                do_model(&kvs, &auts, false, st, rep);
+            }
+        }));
+    }
     {
         p.units.push(unit("version-length-gate-grid", "gate".into(), move |st, rep| {
             match run_gate() {
